@@ -39,6 +39,30 @@ CLAIMED = {
         "note": "trusted: HashMap/IndexSet/bitvec, SHA-256; heap-shape invariants of the blob are not proved",
         "technique": _T + "must-pass-through guards (with interprocedural discharge at callers) + who-may-write + loop idiom recognition + role tables",
     },
+    "C13": {
+        "text": "Decides for all 163 Streamable impls (derived and hand-written, every crate): per data-dependent path the "
+                "token sequence (field, type / literal bytes) of stream equals that of update_digest (ProofOfSpace v2: proof "
+                "replaced by the quality-string commitment, the statement's exception); for the ~125 linear struct codecs parse "
+                "reads the same types in the same order into the same fields, every field exactly once; bool/Option accept "
+                "exactly tags {0,1} and write only those; derived enums accept exactly their discriminants; from_bytes* accept "
+                "only fully consumed input and use the right trust mode, nothing overrides them; Vec/String/Bytes writers reject "
+                "len > u32::MAX and prefix len-as-u32 of self; TRUSTED is only forwarded except at the enumerated sites. "
+                "Decides these clauses, not value-level bijectivity.",
+        "design_ref": "DESIGN.md 3/C13",
+        "note": "trusted: clvmr length scanner (Program), blst (de)compression, chia-pos2; SHA-256",
+        "technique": _T + "codec trio agreement by bounded path enumeration with along-path constant folding + tag tables + must-pass-through",
+    },
+    "C14": {
+        "text": "Decides: every panic-capable MIR site (Assert terminators, unwrap/expect/slice-index/panic entry points) in the "
+                "workspace-internal call-graph closure (~560 fns, CHA edges) of all Streamable methods and from_bytes*/to_bytes/hash "
+                "is auto-discharged by a syntactic pattern or is a per-site allow-list entry whose guard is re-checked on the "
+                "current MIR; allocation sizes in decoders are constant, min-capped or lengths of slices cut from the input; "
+                "decoder loops consume input or are constant-bounded; only read_bytes/Program::parse move the cursor and only after "
+                "a bounds test. One known finding (ProofOfSpace hash panic) is listed in known_findings.json.",
+        "design_ref": "DESIGN.md 3/C14",
+        "note": "trusted: external crates do not panic; no time bounds are decided",
+        "technique": _T + "panic-site enumeration over the call-graph closure with guard-checked allow-list + allocation-size provenance",
+    },
 }
 
 _PENDING = "check not built yet in this round (planned, see DESIGN.md section 3); not claimed until its rules run"
